@@ -62,6 +62,17 @@ impl RemoveInterpolatedStringProcessor {
         }
     }
 
+    /// An interpolated value is always exactly one value: keep it that way when the
+    /// expression becomes a function argument.
+    fn single_value(value: &Expression) -> Expression {
+        match value {
+            Expression::Call(_) | Expression::VariableArguments(_) => {
+                value.clone().in_parentheses()
+            }
+            _ => value.clone(),
+        }
+    }
+
     fn replace_with(&mut self, string: &InterpolatedStringExpression) -> Expression {
         if string.is_empty() {
             StringExpression::from_value("").into()
@@ -78,7 +89,7 @@ impl RemoveInterpolatedStringProcessor {
                         DEFAULT_TOSTRING_IDENTIFIER
                     },
                 )
-                .with_argument(value_segment.get_expression().clone())
+                .with_argument(Self::single_value(value_segment.get_expression()))
                 .into(),
             }
         } else {
@@ -109,7 +120,7 @@ impl RemoveInterpolatedStringProcessor {
                     .iter_segments()
                     .filter_map(|segment| match segment {
                         InterpolationSegment::Value(segment) => {
-                            Some(segment.get_expression().clone())
+                            Some(Self::single_value(segment.get_expression()))
                         }
                         InterpolationSegment::String(_) => None,
                     })
